@@ -451,3 +451,40 @@ class LoadRuleset(Contract):
 
     def frame_ok(self, I, inp, obj, name):
         return False
+
+
+@register
+class CollectionFromYaml(Contract):
+    """SigmaCollection.from_yaml: every YAML document of the stream, in order, is handed to from_dicts together with the caller's
+    collect_errors, source, collect_filters and resolve_references (each in its own position)"""
+    id = "C09.SigmaCollection.from_yaml"
+    target = "sigma.collection:SigmaCollection.from_yaml"
+    props = ("C09", "C07", "C11")
+
+    def setup(self, E):
+        E._c09_fy = []
+        E.externals["yaml.safe_load_all"] = lambda I, a, k: [SObj("Doc", {"n": 0, "of": a[0]}), SObj("Doc", {"n": 1, "of": a[0]})]
+        E.summaries["sigma.collection:SigmaCollection.from_dicts"] = lambda I, so, a, k: (E._c09_fy.append((list(a), dict(k))), SObj("Collection", {}))[1]
+
+    def args(self, I):
+        del I.E._c09_fy[:]
+        text = I.fresh("yaml", "str")
+        ce, cf, rr = I.fresh("collect_errors", "bool"), I.fresh("collect_filters", "bool"), I.fresh("resolve_references", "bool")
+        src = SObj("Location", {})
+        return {"self": ClassRef(I.E.index.lookup("sigma.collection:SigmaCollection")), "args": [text, ce, src, cf, rr], "text": text, "p": (ce, src, cf, rr)}
+
+    def post(self, I, inp, r):
+        calls = I.E._c09_fy
+        ok = len(calls) == 1
+        I.ctx.require(ok, "from_dicts once")
+        if ok:
+            a, k = calls[0]
+            params = dict(zip(("collect_errors", "source", "collect_filters", "resolve_references"), a[1:]))
+            params.update(k)
+            docs = I.force(a[0])
+            I.ctx.require(isinstance(docs, list) and [d.fields["n"] for d in docs] == [0, 1] and all(d.fields["of"] is inp["text"] for d in docs), "all documents of this stream, in order")
+            ce, src, cf, rr = inp["p"]
+            I.ctx.require(params.get("collect_errors") is ce and params.get("source") is src and params.get("collect_filters") is cf and params.get("resolve_references") is rr, "each option reaches from_dicts as the option of the same name")
+
+    def frame_ok(self, I, inp, obj, name):
+        return False
